@@ -98,7 +98,13 @@ func script(reply []byte, p int, f string, rng *rand.Rand, serial bool) xport.Sc
 	case "eof":
 		s.Tail = "eof"
 	case "inject":
-		s.Steps = append(s.Steps, xport.ReadStep{Err: "inject"})
+		// the failing read may hand over bytes along with its error (io.Reader allows it) - up to the whole rest of the
+		// reply: the transport failed all the same
+		n := 0
+		if rng.Intn(2) == 0 {
+			n = rng.Intn(len(reply) - p + 1)
+		}
+		s.Steps = append(s.Steps, xport.ReadStep{N: n, Err: "inject"})
 	case "flood":
 		s.Reply = append(append([]byte{}, reply[:p]...), libx.RandBytes(rng, 600)...)
 		s.Steps = append(s.Steps, xport.ReadStep{N: 600})
